@@ -1218,7 +1218,7 @@ int main(int argc, char** argv)
    // structural family: every LP x {LP,MPS} x {real,rational} x writeZeroObjective
    Family S1 = famQ();
    S1.offsets = {0};
-   Family S2 = famT(2, 2, {-1, 0, 1}, {-1, 0, 1}, {0, 1, 2, 3, 4}, {0, 1, 2, 3, 4, 5, 6, 7});
+   Family S2 = famT(2, 2, {-1, 0, 1}, {0, -1}, {0, 1, 2, 3, 4}, {0, 1, 2, 3, 4, 5, 6, 7});
    S2.offsets = {0};
    Family S0 = famT(2, 2, {-1, 0, 1}, {-1, 0, 1}, {0, 1, 3}, {0, 2, 3, 4});     // quick structural family: 3 column types x 4 row types
    S0.offsets = {0};
@@ -1235,7 +1235,7 @@ int main(int argc, char** argv)
    }, [&](uint64_t idx, uint64_t sub) { RTCase k; SF.get(idx, k.base); k.cfg = base8((int)sub); return rt_case(k); }, o, rtsfx);
 
    // deviation dimensions: names x integer markers (x fmt x mode x wzo) on a smaller complete family, plus value maps
-   Family S3 = thorough ? famT(2, 2, {0, 1}, {0, 1}, {0, 1, 2, 3, 4}, {0, 2, 3, 4}) : famT(2, 2, {0, 1}, {0, 1}, {0, 1, 2, 3, 4}, {0, 3});
+   Family S3 = thorough ? famT(2, 2, {0, 1}, {0, 1}, {0, 1, 2, 3, 4}, {0, 3, 4}) : famT(2, 2, {0, 1}, {0, 1}, {0, 1, 2, 3, 4}, {0, 3});
    S3.offsets = {0};
    if(want("names"))
    {
@@ -1257,7 +1257,7 @@ int main(int argc, char** argv)
       [&](uint64_t, uint64_t sub) { return "@" + cfgs[sub % cfgs.size()].tag(); });
    }
    // value maps (decimal fractions, 16-digit integers, 1e-7 ..., exact rationals with 30-digit numerators)
-   Family S4 = thorough ? famT(2, 2, {0, 1, -1}, {0, 1, -1}, {0, 2, 3, 4}, {0, 1, 2, 3}) : famT(2, 2, {0, 1, -1}, {0, 1}, {0, 3}, {0, 2, 3});
+   Family S4 = thorough ? famT(2, 2, {0, 1, -1}, {0, 1, -1}, {0, 3, 4}, {0, 2, 3}) : famT(2, 2, {0, 1, -1}, {0, 1}, {0, 3}, {0, 2, 3});
    S4.offsets = {0};
    if(want("value maps"))
    {
